@@ -98,10 +98,25 @@ def override_locale(
         setlocale(LC_NUMERIC, prev_locale_string)
 
 
+def format_exponent(num: Number) -> str:
+    """Format an exponent with the locale aware ``n`` presentation type.
+
+    Numeric types that do not support it (``fractions.Fraction``, the exponent type of
+    a registry built with ``non_int_type=Fraction``) are shown as an integer when they
+    are integral and as a decimal number otherwise.
+    """
+    try:
+        return f"{num:n}"
+    except (ValueError, TypeError):
+        if num == int(num):
+            return f"{int(num):n}"
+        return f"{float(num):n}"
+
+
 def pretty_fmt_exponent(num: Number) -> str:
     """Format an number into a pretty printed exponent."""
     # unicode dot operator (U+22C5) looks like a superscript decimal
-    ret = f"{num:n}".replace("-", "⁻").replace(".", "\u22C5")
+    ret = format_exponent(num).replace("-", "⁻").replace(".", "\u22C5")
     for n in range(10):
         ret = ret.replace(str(n), _PRETTY_EXPONENTS[n])
     return ret
@@ -162,7 +177,7 @@ def formatter(
     division_fmt: str = " / ",
     power_fmt: str = "{} ** {}",
     parentheses_fmt: str = "({0})",
-    exp_call: FORMATTER = "{:n}".format,
+    exp_call: FORMATTER = format_exponent,
 ) -> str:
     """Format a list of (name, exponent) pairs.
 
